@@ -33,6 +33,28 @@ func (e *Engine) contractFor(fn *ssa.Function) *Contract {
 	if ct, ok := e.contracts.Funcs[key]; ok {
 		return ct
 	}
+	if cts := e.fieldFnOf[key]; len(cts) > 0 {
+		ct := &Contract{Key: key, File: cts[0].ct.File, Loops: map[int]*LoopContract{}, ParamNames: cts[0].names, ParamOffset: cts[0].offset}
+		// bound to several fields: only what all of them promise can be assumed
+		for _, rq := range cts[0].ct.Requires {
+			inAll := true
+			for _, o := range cts[1:] {
+				found := false
+				for _, r2 := range o.ct.Requires {
+					if r2.Text == rq.Text {
+						found = true
+					}
+				}
+				inAll = inAll && found
+			}
+			if inAll {
+				ct.Requires = append(ct.Requires, rq)
+			}
+		}
+		ct.Props = cts[0].ct.Props
+		e.contracts.Funcs[key] = ct
+		return ct
+	}
 	if fn.Parent() == nil {
 		return nil
 	}
@@ -79,8 +101,8 @@ func (f *Frame) bindParamNames(ct *Contract) {
 		f.specVars = map[string]SVal{}
 	}
 	for i, n := range ct.ParamNames {
-		if i < len(f.fn.Params) && n != "" && n != "_" {
-			p := f.fn.Params[i]
+		if i+ct.ParamOffset < len(f.fn.Params) && n != "" && n != "_" {
+			p := f.fn.Params[i+ct.ParamOffset]
 			if v, ok := f.vals[p]; ok {
 				f.specVars[n] = SVal{v, f.subst(p.Type())}
 			}
@@ -224,5 +246,153 @@ func (f *Frame) functypeMods(ct *Contract, nt *types.Named, ms *modSet) {
 			return
 		}
 		f.addComp(ms, compF(si, i), ArrS(SInt, si.Fields[i].Sort))
+	}
+}
+
+type fieldFnBinding struct {
+	ct     *Contract
+	names  []string
+	offset int
+}
+
+// setupFieldFns finds, for every "fieldfn T.F" contract, the functions the module stores into that
+// field (bound methods and closure literals): they inherit the field's preconditions.
+func (e *Engine) setupFieldFns() {
+	e.fieldFnOf = map[string][]fieldFnBinding{}
+	has := false
+	for _, ct := range e.contracts.Funcs {
+		if ct.FieldFn {
+			has = true
+		}
+	}
+	if !has {
+		return
+	}
+	for _, fn := range e.fnByKey {
+		if !e.inModule(fn) {
+			continue
+		}
+		for _, b := range fn.Blocks {
+			for _, in := range b.Instrs {
+				st, ok := in.(*ssa.Store)
+				if !ok {
+					continue
+				}
+				fa, ok := st.Addr.(*ssa.FieldAddr)
+				if !ok {
+					continue
+				}
+				ct, sig := e.fieldFnContract(fa)
+				if ct == nil {
+					continue
+				}
+				var target *ssa.Function
+				offset := 0
+				switch v := st.Val.(type) {
+				case *ssa.MakeClosure:
+					cf := v.Fn.(*ssa.Function)
+					if cf.Synthetic != "" && len(v.Bindings) == 1 {
+						if m, ok := cf.Object().(*types.Func); ok {
+							target = e.prog.FuncValue(m)
+							offset = 1
+						}
+					} else {
+						target = cf
+					}
+				case *ssa.Function:
+					target = v
+				case *ssa.ChangeType:
+					if mc, ok := v.X.(*ssa.MakeClosure); ok {
+						cf := mc.Fn.(*ssa.Function)
+						if cf.Synthetic != "" && len(mc.Bindings) == 1 {
+							if m, ok := cf.Object().(*types.Func); ok {
+								target = e.prog.FuncValue(m)
+								offset = 1
+							}
+						} else {
+							target = cf
+						}
+					} else if f2, ok := v.X.(*ssa.Function); ok {
+						target = f2
+					}
+				}
+				if target == nil {
+					continue
+				}
+				var names []string
+				for i := 0; i < sig.Params().Len(); i++ {
+					names = append(names, sig.Params().At(i).Name())
+				}
+				k := funcKey(target)
+				dup := false
+				for _, ex := range e.fieldFnOf[k] {
+					if ex.ct == ct {
+						dup = true
+					}
+				}
+				if !dup {
+					e.fieldFnOf[k] = append(e.fieldFnOf[k], fieldFnBinding{ct, names, offset})
+				}
+			}
+		}
+	}
+}
+
+// fieldFnContract: the contract attached to the struct field addressed by fa, with the field's signature.
+func (e *Engine) fieldFnContract(fa *ssa.FieldAddr) (*Contract, *types.Signature) {
+	pt, ok := fa.X.Type().Underlying().(*types.Pointer)
+	if !ok {
+		return nil, nil
+	}
+	nt, ok := types.Unalias(pt.Elem()).(*types.Named)
+	if !ok || nt.Obj().Pkg() == nil {
+		return nil, nil
+	}
+	st, ok := nt.Underlying().(*types.Struct)
+	if !ok {
+		return nil, nil
+	}
+	fld := st.Field(fa.Field)
+	ct := e.contracts.Funcs[nt.Obj().Pkg().Name()+".fieldfn:"+nt.Obj().Name()+"."+fld.Name()]
+	if ct == nil {
+		return nil, nil
+	}
+	sig, ok := fld.Type().Underlying().(*types.Signature)
+	if !ok {
+		return nil, nil
+	}
+	return ct, sig
+}
+
+// fieldFnCallPre: a dynamic call through a value just loaded from a contracted field must satisfy
+// the field's preconditions.
+func (f *Frame) fieldFnCallPre(st *State, r *Term, cc *ssa.CallCommon, args []Val, pos token.Pos) {
+	ld, ok := cc.Value.(*ssa.UnOp)
+	if !ok {
+		return
+	}
+	fa, ok := ld.X.(*ssa.FieldAddr)
+	if !ok {
+		return
+	}
+	ct, sig := f.ctx.eng.fieldFnContract(fa)
+	if ct == nil {
+		return
+	}
+	cf := &Frame{ctx: f.ctx, fn: f.fn, tmap: f.tmap, vals: f.vals, parent: f, depth: f.depth + 1, ghosts: map[string]SVal{}, curKey: map[*ssa.Range]*Term{}, specVars: map[string]SVal{}}
+	for i := 0; i < sig.Params().Len() && i < len(args); i++ {
+		if n := sig.Params().At(i).Name(); n != "" && n != "_" {
+			cf.specVars[n] = SVal{args[i], sig.Params().At(i).Type()}
+		}
+	}
+	cf.entry = st
+	for i, rq := range ct.Requires {
+		se := cf.specEnv(st, st)
+		se.positive = false
+		label := rq.Label
+		if label == "" {
+			label = itoa(i)
+		}
+		f.check("pre", "->"+shortKey(ct.Key)+":"+label, r, se.evalBool(rq.Expr), pos)
 	}
 }
